@@ -623,7 +623,7 @@ func c10Explore(c *core.Ctx, p c10Prog, maxSchedules int) {
 }
 
 func c10Run(c *core.Ctx, idx int) {
-	pairs, sampled, _ := c10Tier(c.Tier)
+	pairs, sampled, stress := c10Tier(c.Tier)
 	r := c.Rng
 	n := 100
 	next := func() int { n++; return n }
@@ -657,9 +657,141 @@ func c10Run(c *core.Ctx, idx int) {
 			budget = 400
 		}
 		c10Explore(c, p, budget)
-	default:
+	case idx < pairs+sampled+stress:
 		c10Stress(c)
+	default:
+		c10Hammer(c)
 	}
+}
+
+func c10HammerCases(tier string) int {
+	if tier == "thorough" {
+		return 12000
+	}
+	return 480
+}
+
+// c10Hammer: long free-running runs whose verdict needs no search. P goroutines cycle the stack (Pop, then Push of the
+// popped value), others overwrite position 0 or swap positions 0 and 1. The stack starts with P+2 unique values, so in
+// EVERY sequential order of whole calls it holds at least two values at any time: each Pop must return a value, each
+// Replace(x,0) must report success, nothing may panic, and at the end the length is what it was, every
+// value is an initial one or a replacement token, and none occurs twice (conservation with unique values).
+func c10Hammer(c *core.Ctx) {
+	r := c.Rng
+	P := r.Range(1, 3)
+	fifo := r.Chance(2, 3)
+	kind := Kinds[r.Intn(5)]
+	L0 := P + 2
+	capacity := 0
+	if r.Chance(1, 3) {
+		capacity = L0 + r.Intn(2)
+	}
+	s := NewStack(kind, capacity)
+	if fifo {
+		s.SetFIFO(true)
+	}
+	legit := map[any]bool{}
+	for i := 0; i < L0; i++ {
+		s.Push(1000 + i)
+		legit[1000+i] = true
+	}
+	s.SetMutex()
+	c10Register(s)
+	replacers, swappers := r.Intn(3), r.Intn(2)
+	if replacers+swappers == 0 {
+		replacers = 1
+	}
+	iters := r.Range(300, 1200)
+	desc := map[string]any{"kind": kind, "fifo": fifo, "cap": capacity, "cyclers": P, "replacers": replacers, "swappers": swappers, "iterations": iters}
+	var bad atomic.Value // first refusal
+	var nPop, nRep, nSwap atomic.Int64
+	fail := func(key, msg string) { bad.CompareAndSwap(nil, [2]string{key, msg}) }
+	var wg sync.WaitGroup
+	start := make(chan struct{})
+	run := func(f func(i int)) {
+		wg.Add(1)
+		go func() {
+			defer wg.Done()
+			<-start
+			for i := 0; i < iters && bad.Load() == nil; i++ {
+				if p, msg, site := Guard(func() { f(i) }); p {
+					fail("hammer:panic:"+site, "a call panicked: "+msg)
+				}
+			}
+		}()
+	}
+	for w := 0; w < P; w++ {
+		run(func(i int) {
+			v, ok := s.Pop()
+			nPop.Add(1)
+			if !ok || v == nil {
+				fail("hammer:pop-refused", fmt.Sprintf("Pop returned (%s,%v) on a stack that holds at least two values in every sequential order", Show(v), ok))
+				return
+			}
+			if _, isInt := v.(int); !isInt {
+				fail("hammer:pop-fabricated", fmt.Sprintf("Pop returned %s, which nobody stored", Show(v)))
+				return
+			}
+			s.Push(v)
+		})
+	}
+	var tokMu sync.Mutex
+	for w := 0; w < replacers; w++ {
+		w := w
+		run(func(i int) {
+			tok := 100000*(w+1) + i
+			tokMu.Lock()
+			legit[tok] = true
+			tokMu.Unlock()
+			nRep.Add(1)
+			if !s.Replace(tok, 0) {
+				fail("hammer:replace-refused", "Replace(x,0) returned false on a stack that holds at least two values in every sequential order")
+			}
+		})
+	}
+	for w := 0; w < swappers; w++ {
+		run(func(i int) {
+			nSwap.Add(1)
+			s.Swap(0, 1)
+		})
+	}
+	close(start)
+	done := make(chan struct{})
+	go func() { wg.Wait(); close(done) }()
+	select {
+	case <-done:
+	case <-time.After(90 * time.Second):
+		c.Inconclusive("C10 hammer run did not finish within the 90 s watchdog")
+		return
+	}
+	c.Count("hammer.runs")
+	c.Add("hammer.pops", nPop.Load())
+	c.Add("hammer.replaces", nRep.Load())
+	c.Add("hammer.swaps", nSwap.Load())
+	if b := bad.Load(); b != nil {
+		kv := b.([2]string)
+		c.Violate(kv[0], kv[1]+fmt.Sprintf(" (after %d Pops, %d Replaces, %d Swaps)", nPop.Load(), nRep.Load(), nSwap.Load()), desc)
+		return
+	}
+	d, ok := stackage.VerifDump(s)
+	if !ok || !d.HasCfg {
+		c.Violate("hammer:cfg-slot-lost", "configuration record no longer in slot 0", desc)
+		return
+	}
+	if s.Len() != L0 {
+		c.Violate("hammer:length", fmt.Sprintf("final length %d, started with %d and every Pop was followed by a Push", s.Len(), L0), desc)
+		return
+	}
+	seen := map[any]bool{}
+	for i := 0; i < s.Len(); i++ {
+		v, _ := s.Index(i)
+		if !legit[v] || seen[v] {
+			c.Violate("hammer:content", fmt.Sprintf("final position %d holds %s (never stored, or present twice)", i, Show(v)), desc)
+			return
+		}
+		seen[v] = true
+	}
+	c.NontrivialStr("hammer|" + core.JSON(desc))
 }
 
 // ---------------------------------------------------------------- free-running stress
@@ -830,6 +962,23 @@ func c10Teardown(c *core.Ctx) {
 		if kind == "rw" {
 			key += ":" + site
 		}
+		writer := rp.A
+		if !rp.A.Write {
+			writer = rp.B
+		}
+		wsite := "?"
+		for _, f := range writer.Frames {
+			if i := strings.Index(f, "go-stackage."); i >= 0 {
+				wsite = f[i+len("go-stackage."):]
+				break
+			}
+		}
+		c.Count("race.by-writer." + cls + "." + kind + "." + site + "<-" + wsite)
+		if kind == "rw" && cls == "elsewhere" {
+			// outside the registered header and configuration record the only thing (*stack).config reads is slot 0 of a
+			// backing array; which function wrote it identifies the call site
+			key += "<-" + wsite
+		}
 		c.Violate(key, "data race on "+cls+" memory:\n"+rp.Raw, map[string]any{"report": rp.Raw})
 	}
 	c.Add("race-reports", int64(len(reps)))
@@ -840,7 +989,7 @@ func init() {
 		ID: "C10",
 		Cases: func(tier string) int {
 			a, b, s := c10Tier(tier)
-			return a + b + s
+			return a + b + s + c10HammerCases(tier)
 		},
 		Run:      c10Run,
 		Teardown: c10Teardown,
@@ -849,6 +998,7 @@ func init() {
 			"ALL 2-worker x 1-op programs over a 13-symbol mutator alphabet x initial length 0..3 x LIFO/FIFO x capacity {none, Len, Len+1} with ALL their interleavings, plus sampled 2..3-worker x 1..3-op programs with up to 200 (quick) / 400 (thorough) interleavings each (depth-first, re-execution). " +
 			"At every switch a VerifDump snapshot decides 'writes only inside the critical section' (content, configuration slot, lock bookkeeping), capacity and the presence of the configuration record; deadlock = no enabled worker; each history (call/return stamps + final read) is checked by porcupine against the sequential list model. " +
 			"stress: 3..7 free-running goroutines x 2..4 ops with yields injected at lock.want, histories checked by porcupine; the whole run executes under the Go race detector and every report is classified by the registered address it touches (slice header / configuration record field / elsewhere) and by the reading function. " +
+			"hammer (480 / 12 000 runs): 1-3 goroutines cycle a stack of P+2 unique values (Pop then Push of the popped value) while others Replace position 0 or Swap(0,1), 300-1200 iterations each; since at least two values are present in every sequential order, every Pop/Replace/Swap must succeed, and at the end length and content are conserved (unique values). " +
 			"non-trivial = program for which at least two different interleavings were executed, or a completed stress history; distinct = program text.",
 		Assumptions: []string{
 			"interleavings are explored at lock-acquisition granularity; instruction-level interleavings inside a block are visible only to the race detector, and only when the stress run produces them",
@@ -856,7 +1006,7 @@ func init() {
 			"porcupine timeouts in the stress part are counted, not judged",
 		},
 		Floors: func(tier string) map[string]int64 {
-			return map[string]int64{"explorer.executions": 10000, "explorer.programs-exhausted": 3000, "explorer.histories-linearizable": 5000, "stress.histories": 500, "stress.histories-linearizable": 300}
+			return map[string]int64{"explorer.executions": 10000, "explorer.programs-exhausted": 3000, "explorer.histories-linearizable": 5000, "stress.histories": 500, "stress.histories-linearizable": 300, "hammer.runs": 400, "hammer.pops": 100000}
 		},
 	})
 }
